@@ -348,8 +348,10 @@ class PartiesEngine(Engine):
             return 'ok'
         except x.MetaException as e:
             return type(e).__name__
-        except AttributeError:
-            return 'AttributeError'     # e.g. clone after delete_attribute: the mutated model's own business
+        except (AttributeError, TypeError, ValueError, KeyError) as e:
+            # e.g. clone after delete_attribute shifts positional values into columns of another type: what a
+            # mutated metamodel does to itself is outside this property; only other parties are watched
+            return type(e).__name__
 
 
 def diff_canon(c0, c1):
